@@ -162,6 +162,9 @@ def strategy(tier):
     term = st.builds(lambda x, b: {"op": "term", "f": "t", "x": x, "boost": b}, st.sampled_from(c05.VOC[:4]),
                      st.sampled_from([1.0, 1.0, 2.0]))
     simple = st.one_of(term, term, st.builds(lambda a, b: {"op": "and", "qs": [a, b], "boost": 1.0}, term, term),
+                       # Or(..., scale=...): the coordination wrapper is a matcher like any other
+                       st.builds(lambda a, b, sc: {"op": "or", "qs": [a, b], "boost": 1.0, "scale": sc}, term, term,
+                                 st.sampled_from([0.5, 0.9])),
                        st.builds(lambda a, b: {"op": "andnot", "a": a, "b": b}, term, term))
     multi = st.builds(lambda case, q, segs, prog, at: dict(case, query=q, segments=segs, level="top",
                                                            program=prog[:at % (len(prog) + 1)] + [["all_ids"]] + prog[at % (len(prog) + 1):]),
